@@ -33,6 +33,9 @@ def run(rep, kf, tier, seed):
     cr.copy_superset_of_read_obligation(rep, "C20")
     import contracts.resolvers as rs
     rs.discharge(rep, kf, "C20", tier, seed)
+    # a single-member wrapper around a reference IS that reference (one class per schema), whatever else the wrapper says
+    cdp_ = __import__("contracts.dispatch", fromlist=["x"])
+    cdp_.discharge(rep, kf, "C20", tier, seed)
     # a component that is used twice is parsed twice: parsing must leave the document's schema objects as they were
     import contracts.dispatch as cdp
     from pyvc import engine_b as _eb
